@@ -2,18 +2,21 @@
 
 The twenty property statements overlap: C01 bounds grades "x attempt numbers" (the mechanism is C17's), C02
 demands that the call terminates (the only unbounded loop on a grading path driven by student text is C13's
-dependency resolution), C05/C07 demand an optimal assignment (C06's solver), C08's verdict passes through the
+dependency resolution) and that anticipated array-shape problems keep their specific error class (the error column of
+C14's operation table), C05/C07 demand an optimal assignment (C06's solver), C08's verdict passes through the
 comparer-result sanitiser (C01) and the credit scaling of raw_check (C04), C09's "recorded function names" are
-C10's parse actions and reset discipline, and its scopes are the default tables of C11.  A change that breaks such
+C10's parse actions and reset discipline, its scopes are the default tables of C11, the names it admits beyond
+the configured ones are exactly C13's numbered-variable instances, and its gate on `ok` relies on C01's sanitiser
+emitting only the canonical values.  A change that breaks such
 a shared mechanism breaks both properties, so the check of either must report it.  `run.run_rules` imports the
 listed rules of the related module under the id `<prop>.REL.<original id>` (same obligations, same floors).
 """
 
 RELATED = {
     'C01': {'C17': ('D2.', 'D3.'), 'C11': ('D5.',)},
-    'C02': {'C13': ('D1.',), 'C10': ('D2.',)},
+    'C02': {'C13': ('D1.',), 'C10': ('D2.',), 'C14': ('D1.',)},
     'C08': {'C01': ('D3.',), 'C04': ('D4.',)},
-    'C09': {'C10': ('D1.', 'D2.', 'D3.'), 'C11': ('D7.',)},
+    'C09': {'C10': ('D1.', 'D2.', 'D3.'), 'C11': ('D7.',), 'C13': ('D5.',), 'C01': ('D3.',)},
     'C04': {'C01': ('D3.',)},
     'C16': {'C04': ('D1.',)},
     'C18': {'C08': ('D2.', 'D3.')},
